@@ -31,6 +31,13 @@ SRC = {
           "x = 1\nother = 5\ny = 2\nz = 3\n",         # 11 another line inserted at the same place
           "x = 1\ny = 2\nz = 3  \n",                  # 12 trailing blanks on the last line
           "x = 1\ny = 2\nz = 3\t\n"],                 # 13 a trailing tab on the last line
+    # an insertion before a line together with a character-level patch of that line
+    "Q": ["a\nprint(x)     pass\nz\n",
+          "a\nprint(x)     pass #ed\neta     pass\nz\n",
+          "a\ngamma print(x)\nprint(x)     pass\nz\n",
+          "a\nprint(x)     pass #ed\nz\n",
+          "a\nnew line\neps print(x)     pass\nz\n",
+          "a\nprint(x)     pass !\nz\n", "a\nz\n", "a\nprint(x)     pass\nz\nlast\n"],
     # a cell whose source is empty in the base
     "E": ["", "alpha = 1\nbeta = 2\n", "alpha = 1\ngamma = 3\n", "alpha = 1\nbeta = 2\ndelta = 4\n",
           "alpha = 1\nbeta = 2", "zeta = 0\nalpha = 1\nbeta = 2\n", "something else entirely in here\n", ""],
@@ -291,6 +298,7 @@ TEMPLATES = {
     "codeStale": dict(type="code", src="A", outputs=[], md=1, stale=True),
     "codeStale0": dict(type="code", src="A", outputs=[], md=1, stale="empty"),
     "codeE": dict(type="code", src="E", outputs=[], md=0),
+    "codeQ": dict(type="code", src="Q", outputs=[], md=0),
     "mdStale": dict(type="markdown", src="M", md=0, att="stale"),
     "codeNums": dict(type="code", src="B", outputs=[], md=0, nums=True),
     "md": dict(type="markdown", src="M", md=1, att=False),
